@@ -282,7 +282,8 @@ def addScriptInput {σ : Type} (truthy : σ → Bool) (hash : σ → Bytes) (cre
 
 /-- `if candidate_utxo is not None and candidate_utxo != utxo: self.reference_inputs.add(candidate_utxo)`;
 `sameAsSpent i` says whether the i-th UTxO at the address equals the spent one, `refIsSpent` the same for the offered
-reference UTxO.  `true`: goes into the reference inputs, `false`: the script is shipped in the witness set. -/
+reference UTxO.  `true`: the UTxO goes into the reference inputs (and the script into `_reference_scripts`), `false`:
+the script stays a witness-set script (`build_and_sign` drops it again when the spent input itself carries it). -/
 def usesReference (sameAsSpent : Nat → Bool) (refIsSpent : Bool) : Src → Bool
   | .own => false
   | .atAddress i => !sameAsSpent i
